@@ -50,10 +50,20 @@ def gen_float(R, lo, hi):
     return v
 
 
-def gen_catalog14(R, region, mags, inside_only, n_max):
+def gen_catalog14(R, region, mags, inside_only, n_max, mixed=False):
     n = R.choice((0, 0, 1, 2, R.randint(0, n_max), R.randint(0, n_max)))
     evs = []
     for k in range(n):
+        if mixed:
+            # clearly inside a cell or clearly outside the region (for a later spatial filter)
+            t = R.randint(MS_1900, MS_2200)
+            if R.random() < 0.6:
+                lon, lat = gen.point_in_cell(R, region, R.randrange(gen.n_cells(region)))
+            else:
+                lon, lat = gen.point_outside(R, region)
+            evs.append([gen_id(R, k), t, lat, lon, gen_float(R, -5.0, 700.0),
+                        gen.mag_in_bin(R, mags, R.randrange(len(mags['edges'])))])
+            continue
         t = R.randint(MS_1900, MS_2200)
         if R.random() < 0.25:
             t -= t % 1000                      # whole second: time string without fraction
@@ -79,7 +89,9 @@ def generate(R, tier, focus):
     cats = []
     for i in range(R.randint(1, 3)):
         with_region = R.random() < 0.4
-        cats.append({'events': gen_catalog14(R, region, mags, with_region, n_max), 'with_region': with_region,
+        mixed = (not with_region) and R.random() < 0.3
+        cats.append({'events': gen_catalog14(R, region, mags, with_region, n_max, mixed=mixed), 'with_region': with_region,
+                     'mixed': mixed,
                      'catalog_id': R.choice((None, 0, 1, 7, 12345)), 'name': R.choice((None, 'cat', 'my catalog, v2'))})
     ops = []
     n_ops = R.randint(1, 10) if not thorough else R.randint(1, 25)
@@ -91,6 +103,13 @@ def generate(R, tier, focus):
                         'to_us': R.randint(MS_1900, MS_2200) * 1000 + R.choice((0, 0, 1, 999999, R.randint(0, 999999)))})
         elif x < 0.25:
             ops.append({'op': 'TZ_SWITCH', 'tz': R.choice(TZ_CHOICES)})
+        elif x < 0.35:
+            # the live catalog object is changed in place between round trips (optionally after its dict form was built)
+            ci = R.randrange(len(cats))
+            how = 'spatial' if (cats[ci]['mixed'] or cats[ci]['with_region']) and R.random() < 0.6 else 'filter'
+            thr = R.choice([e[5] for e in cats[ci]['events']] or [5.0])
+            ops.append({'op': 'MUTATE', 'cat': ci, 'how': how, 'stmt': 'magnitude %s %r' % (R.choice(('>=', '<', '>')), thr),
+                        'warm': R.choice(('none', 'to_dict', 'write_json', 'to_dataframe'))})
         elif x < 0.85:
             chain = [R.choice(FORMATS)]
             while R.random() < 0.35 and len(chain) < 3:
@@ -205,8 +224,40 @@ def _execute14(scn, ctx, store, clock):
             ctx.count('construction_mismatch')
             return
     n_files = 0
+    cur_events = {ci: list(scn['cats'][ci]['events']) for ci in live}      # model of the live objects
+    import operator as _op
+    cmp = {'>=': _op.ge, '<': _op.lt, '>': _op.gt}
     for oi, op in enumerate(scn['ops']):
         kind = op['op']
+        if kind == 'MUTATE':
+            ci = op['cat']
+            if ci not in live:
+                continue
+            c = live[ci]
+            ctx.count('fire:mutate_' + op['how'])
+            if op['warm'] == 'to_dict':
+                call(c.to_dict)
+            elif op['warm'] == 'write_json':
+                n_files += 1
+                call(c.write_json, store.path('warm_%d.json' % n_files))
+            elif op['warm'] == 'to_dataframe' and (getattr(c, 'region', None) is None or not scn['cats'][ci].get('mixed')):
+                call(c.to_dataframe)
+            if op['how'] == 'filter':
+                r = call(c.filter, op['stmt'])
+                name, oper, val = op['stmt'].split(' ')
+                cur_events[ci] = [e for e in cur_events[ci] if cmp[oper](float(e[5]), float(val))]
+            else:
+                r = call(c.filter_spatial, region)
+                from .fcsim import _inside
+                cur_events[ci] = [e for e in cur_events[ci] if _inside(e, scn['region'])]
+            if r[0] != 'ok':
+                ctx.count('mutate_exception:' + r[1])          # filtering itself is C04's business
+                del live[ci]
+                continue
+            if not hexf([list(x) for x in rows_of(c)]) == hexf([list(x) for x in model_rows(cur_events[ci])]):
+                ctx.count('mutate_mismatch')                   # C04's business; this object is no longer used
+                del live[ci]
+            continue
         if kind == 'CLOCK_JUMP':
             ctx.count('fire:clock_' + op['kind'])
             if op['kind'] == 'forward':
@@ -247,7 +298,7 @@ def _execute14(scn, ctx, store, clock):
         if ci not in live:
             continue
         spec = scn['cats'][ci]
-        want = model_rows(spec['events'])
+        want = model_rows(spec['events'] if op['remake'] else cur_events[ci])
         cat = make(ci) if op['remake'] else live[ci]
         made_at = clock.now_us
         if made_at % 1000000 == 0:
@@ -416,7 +467,8 @@ def _field_equal(a, b):
 
 def check_result_roundtrip(ctx, store, res, tag, n):
     import csep
-    path = store.path('res_%d.json' % n)
+    # only two paths per run: most results overwrite an earlier (longer or shorter) file written moments before
+    path = store.path('res_%d.json' % (n % 2))
     cls = type(res).__name__
     w = call(csep.write_json, res, path)
     if w[0] != 'ok':
@@ -459,6 +511,12 @@ def check_result_roundtrip(ctx, store, res, tag, n):
                         ctx.count('rare:infinite_statistic')
                 except (TypeError, ValueError):
                     pass
+    def _is_seq(x):
+        return isinstance(x, (list, tuple)) or (isinstance(x, numpy.ndarray) and x.ndim >= 1)
+    if _is_seq(res.test_distribution) and not _is_seq(new.test_distribution):
+        ctx.violate('C18', 'fields', '%s:test_distribution:sequence-becomes-scalar' % cls,
+                    {'test': tag, 'before_len': len(res.test_distribution), 'after': repr(new.test_distribution)[:60]})
+        return
     da = _numeric_list(res.test_distribution)
     if da is not None:
         db = _numeric_list(new.test_distribution)
